@@ -156,3 +156,108 @@ def common_stats(res, an):
     res.floor("tokens.throw sites", len(event_sites(an, "throw")), 3)
     res.floor("for-in-tokens loops", len(event_sites(an, "for_tokens")), 2)
     res.floor("parser try handlers", len(handlers(an)), 8)
+
+
+# ------------------------------------------------------------------ WSC-SKIP
+def rule_wsc_skip(repo, res):
+    """The white-space/comment skip helpers of the parser: in their token loop a token for which is_WSC() holds is
+    never pushed back, returned on, raised on or allowed to leave the loop -- the loop goes on to the next token; and
+    when the loop gives up on another token (``return False``) that token was sent back.  Decided on every path of the
+    loop body with the truth of ``t.is_WSC()`` as the only tracked fact (T / F / unknown); other tests fork."""
+    import ast
+    from .core import Finding, AnalysisError, norm
+    from .tokproto import is_skip_helper
+    from .inline import inline_all
+    seen = 0
+    done = set()
+    for cfg in tokproto.configs_from_repo(repo):
+        for cname in repo.mro(cfg.parser):
+            if cname.startswith("ext:") or cname in done:
+                continue
+            done.add(cname)
+            ci = repo.classes[cname]
+            for mname, fn0 in ci.methods.items():
+                if not is_skip_helper(fn0):
+                    continue
+                try:
+                    fn = inline_all(repo, cname, fn0, module=ci.module.name)
+                except Exception:
+                    fn = fn0
+                for loop in [n for n in ast.walk(fn) if isinstance(n, ast.For) and isinstance(n.iter, ast.Name)
+                             and n.iter.id == "tokens" and isinstance(n.target, ast.Name)]:
+                    seen += 1
+                    tv = loop.target.id
+                    probs = []
+
+                    def truth(e, wsc):
+                        if isinstance(e, ast.Call) and isinstance(e.func, ast.Attribute) and e.func.attr == "is_WSC" \
+                                and isinstance(e.func.value, ast.Name) and e.func.value.id == tv and not e.args:
+                            return wsc, True
+                        if isinstance(e, ast.UnaryOp) and isinstance(e.op, ast.Not):
+                            v, about = truth(e.operand, wsc)
+                            return ({"T": "F", "F": "T"}.get(v, "U"), about)
+                        if isinstance(e, ast.Constant):
+                            return ("T" if e.value else "F"), False
+                        return "U", False
+
+                    def walk(stmts, wsc, sent):
+                        """returns the list of (wsc, sent) states that fall off the end of *stmts*"""
+                        states = [(wsc, sent)]
+                        for s in stmts:
+                            nxt = []
+                            for (w, sn) in states:
+                                if isinstance(s, ast.If):
+                                    v, about = truth(s.test, w)
+                                    if about and w == "U":
+                                        neg = isinstance(s.test, ast.UnaryOp)
+                                        nxt += walk(s.body, "F" if neg else "T", sn)
+                                        nxt += walk(s.orelse, "T" if neg else "F", sn)
+                                    elif v == "T":
+                                        nxt += walk(s.body, w, sn)
+                                    elif v == "F":
+                                        nxt += walk(s.orelse, w, sn)
+                                    else:
+                                        # a conjunction / disjunction that mentions is_WSC, or any other test: both arms
+                                        nxt += walk(s.body, w, sn)
+                                        nxt += walk(s.orelse, w, sn)
+                                elif isinstance(s, ast.Return):
+                                    if w == "T":
+                                        probs.append((s, "returns at"))
+                                    elif w == "F" and not sn and isinstance(s.value, ast.Constant) and s.value.value is False:
+                                        probs.append((s, "NOSEND"))
+                                elif isinstance(s, ast.Raise):
+                                    if w == "T":
+                                        probs.append((s, "raises at"))
+                                elif isinstance(s, ast.Break):
+                                    if w == "T":
+                                        probs.append((s, "leaves the loop at"))
+                                elif isinstance(s, ast.Continue):
+                                    pass
+                                elif isinstance(s, ast.Expr) and isinstance(s.value, ast.Call) and norm(s.value.func) == "tokens.send":
+                                    if w == "T":
+                                        probs.append((s, "pushes back"))
+                                    nxt.append((w, True))
+                                elif isinstance(s, (ast.For, ast.While, ast.Try, ast.With, ast.Match if hasattr(ast, "Match") else ast.For)):
+                                    raise AnalysisError(f"WSC-SKIP: unsupported statement `{norm(s)[:60]}` in the token loop of {cname}.{mname}")
+                                else:
+                                    nxt.append((w, sn))
+                            states = list(dict.fromkeys(nxt))
+                            if not states:
+                                break
+                        return states
+
+                    walk(loop.body, "U", False)
+                    bad = list(dict.fromkeys((norm(s), why) for (s, why) in probs))
+                    res.oblige("WSC-SKIP", f"{cname}.{mname}: a token with is_WSC() true always leads to the next token of the loop "
+                                           "and the token the skip stops at is sent back before `return False`", ok=not bad)
+                    for (txt, why) in bad:
+                        if why == "NOSEND":
+                            res.add(Finding("WSC-SKIP", f"{cname}.{mname}", f"`{txt}` without send",
+                                            f"{cname}.{mname} gives up at a token that is not white space or a comment (`{txt}`) "
+                                            "without sending it back: the token after the skipped run is lost"))
+                        else:
+                            res.add(Finding("WSC-SKIP", f"{cname}.{mname}", f"{why} a WSC token: `{txt}`",
+                                            f"{cname}.{mname} {why} a white-space/comment token (`{txt}` is reachable with "
+                                            "t.is_WSC() true): a comment or line break at this grammar position ends the skip, "
+                                            "so the same label with and without the comment parses differently"))
+    res.floor("skip-helper token loops", seen, 2)
